@@ -36,8 +36,23 @@ func (l *Listener) AcceptWithContext(ctx context.Context) (net.Conn, error) {
 	}
 	c := l.Pending[0]
 	l.Pending = l.Pending[1:]
+	if r, ok := c.(refused); ok {
+		// what pion's listener returns when the application's OnConnectionAttempt hook refuses a peer:
+		// an error together with a non-nil interface holding a nil connection
+		var none *hsConn
+		return none, r.err
+	}
 	return c, nil
 }
+
+// refused is a queue entry for a connection attempt the listener itself turns down.
+type refused struct {
+	net.Conn
+	err error
+}
+
+// Refuse queues a connection attempt that Accept reports as (typed-nil conn, err).
+func (l *Listener) Refuse(err error) { l.Pending = append(l.Pending, refused{err: err}) }
 
 // PeerConn is one peer's connection as seen from the peer: write = append to St.In, read = St.Out.
 type PeerConn struct {
